@@ -175,6 +175,24 @@ def run(ctx, prog, res):
             pops = [b for b, tt in un.calls() if any(n.endswith("::pop") for n in flow.call_names(tt))]
             r3.check(bool(pops) and not flow.reach_avoiding(un, 0, [bb], pops), {"recursive_call_block": bb, "pop_blocks": pops},
                      "C20.R3:recursion", "the recursive call of union is reachable without popping an element (no decreasing measure)", lib.where_of(un, t))
+    # the order argument above covers `extend` (guarded), `pop` and `push`; any other way of changing an inner vector
+    # (insert, splice, append, retain, drain, swap, sort, ...) places elements by an argument these rules do not make
+    ALLOWED_MUT = re.compile(r"(::extend|::pop|::push)$")
+    for bb, t in un.calls():
+        if not t["args"]:
+            continue
+        pl0 = lib.operand_place(t["args"][0])
+        if pl0 is None:
+            continue
+        mutref = False
+        for _, n in un.defs_of(pl0["l"]):
+            if n["k"] == "assign" and n["rv"]["k"] == "ref" and n["rv"].get("mut") and (USV, "UniqueSortedVec", "0") in lib.place_fields(n["rv"]["pl"]):
+                mutref = True
+        if not mutref:
+            continue
+        nm = flow.call_name(t) or "?"
+        r3.check(ALLOWED_MUT.search(nm) is not None, {"mutation_in_union": nm.split("::")[-1], "block": bb}, "C20.R3:mutation:%s" % nm.split("::")[-1],
+                 "union changes an inner vector through `%s`: only a guarded `extend`, `pop` and `push` of the popped maximum are argued to keep the vector sorted and free of duplicates; where this call puts its elements is not decided (failing closed)" % nm, lib.where_of(un, t))
     r3.floor(5)
 
     # R4 -------------------------------------------------------------------------------------
